@@ -315,6 +315,7 @@ func runCheck(id, tier string) int {
 	}
 	if tier == "thorough" && os.Getenv("VERIF_SELFTEST_CHILD") == "" {
 		cov["detector_selftest"] = selfTest(id)
+		cov["reverted_fix_selftest"] = revertedFixTest(id)
 	}
 	ev := evidence{PropertyID: id, Tier: tier, Seed: seed, Level: "other", Coverage: cov,
 		Assumptions: append([]string{"verdicts are about the shape of /repo's current source; they decide the named structural clauses, not the full behavioural statement"}, prop.Assumptions...),
@@ -449,6 +450,96 @@ func selfTest(id string) []map[string]any {
 			}
 		}()
 		fmt.Printf("  selftest %s: %v (expected detected=%v)\n", name, rec["result"], meta.Detected)
+		out = append(out, rec)
+	}
+	return out
+}
+
+// revertedFixTest (thorough tier, evidence only): for every `fixed` entry of known_findings.json
+// of this property, the fix commit is reverted on a scratch copy of the tree (`git show <commit>`
+// applied in reverse) and the quick analysis must report the entry's key again — "a fixed entry
+// suppresses nothing: the check reports the violation again if it ever returns". A commit whose
+// reverse patch no longer applies (later repairs touched the same lines) is recorded as stale.
+func revertedFixTest(id string) []map[string]any {
+	var out []map[string]any
+	scratchRoot := os.Getenv("VERIF_SCRATCH")
+	if scratchRoot == "" {
+		scratchRoot = "/var/tmp"
+	}
+	byCommit := map[string][]string{}
+	var commits []string
+	kfs, _ := loadKnown()
+	for _, k := range kfs {
+		if k.Property != id || k.Status != "fixed" || k.Commit == "" {
+			continue
+		}
+		if _, seen := byCommit[k.Commit]; !seen {
+			commits = append(commits, k.Commit)
+		}
+		byCommit[k.Commit] = append(byCommit[k.Commit], k.Key)
+	}
+	for _, c := range commits {
+		rec := map[string]any{"commit": c, "expected_keys": byCommit[c]}
+		diff, err := exec.Command("git", "-C", repoDir(), "show", "--format=", c).Output()
+		if err != nil || len(diff) == 0 {
+			rec["result"] = "skipped: commit not available in " + repoDir()
+			out = append(out, rec)
+			continue
+		}
+		scratch, err := os.MkdirTemp(scratchRoot, "verifsa-revert-")
+		if err != nil {
+			rec["result"] = "error: " + err.Error()
+			out = append(out, rec)
+			continue
+		}
+		func() {
+			defer os.RemoveAll(scratch)
+			repoCopy := filepath.Join(scratch, "repo")
+			vdir := filepath.Join(scratch, "verif")
+			_ = os.MkdirAll(vdir, 0o755)
+			if kb, err := os.ReadFile(filepath.Join(verifDir(), "known_findings.json")); err == nil {
+				_ = os.WriteFile(filepath.Join(vdir, "known_findings.json"), kb, 0o644)
+			}
+			if o, err := exec.Command("rsync", "-a", "--exclude", ".git", "--exclude", ".tmp", repoDir()+"/", repoCopy+"/").CombinedOutput(); err != nil {
+				rec["result"] = "error copying tree: " + string(o)
+				return
+			}
+			pf := filepath.Join(scratch, "fix.diff")
+			_ = os.WriteFile(pf, diff, 0o644)
+			pc := exec.Command("patch", "-p1", "-R", "--no-backup-if-mismatch", "-s", "-i", pf)
+			pc.Dir = repoCopy
+			if o, err := pc.CombinedOutput(); err != nil {
+				rec["result"] = "stale: the fix can no longer be reverted mechanically (" + strings.TrimSpace(strings.Split(string(o), "\n")[0]) + ")"
+				return
+			}
+			cmd := exec.Command(os.Args[0], "check", id, "quick")
+			cmd.Env = append(os.Environ(), "VERIF_REPO="+repoCopy, "VERIF_DIR="+vdir, "VERIF_SELFTEST_CHILD=1")
+			o, _ := cmd.CombinedOutput()
+			reported := map[string]bool{}
+			for _, line := range strings.Split(string(o), "\n") {
+				line = strings.TrimSpace(line)
+				if strings.HasPrefix(line, "VIOLATION ") && !strings.HasPrefix(line, "VIOLATION property=") {
+					rest := strings.TrimPrefix(line, "VIOLATION ")
+					if i := strings.Index(rest, " at "); i > 0 {
+						reported[rest[:i]] = true
+					}
+				}
+			}
+			missing := []string{}
+			for _, k := range byCommit[c] {
+				if !reported[k] {
+					missing = append(missing, k)
+				}
+			}
+			rec["exit"] = cmd.ProcessState.ExitCode()
+			if len(missing) == 0 && cmd.ProcessState.ExitCode() == 1 {
+				rec["result"] = "reported again"
+			} else {
+				rec["result"] = "NOT reported again"
+				rec["missing_keys"] = missing
+			}
+		}()
+		fmt.Printf("  reverted fix %s: %v\n", c, rec["result"])
 		out = append(out, rec)
 	}
 	return out
